@@ -608,4 +608,73 @@ theorem pRun_complete (l : List WG) (n per : Nat) (hn : 0 < n) : ∀ (k : Nat) (
 theorem allWGs_nodup (g : Geo) : (allWGs g).Nodup :=
   nodup_map_key _ _ (fun w : WG => lin g w.id) List.nodup_range (fun n _ => lin_coordOf g n)
 
+/-! ## the executable scenario runner `runPart` is `pRun` with printing -/
+
+/-- how `runPart` prints one call of `Next` -/
+def renderStep : Option (Nat × WG) → String
+  | none => "-"
+  | some (i, wg) => s!"{i}:{wgStr wg}"
+
+/-- the calls `runPart` makes: it stops calling once `HasNext` is false -/
+def pTrace : Nat → PState → List Bool → List (Option (Nat × WG)) × PState
+  | 0, s, _ => ([], s)
+  | k + 1, s, f =>
+    if s.nd < s.numWG then
+      let r := pTrace k (pNext s f).1 (pNext s f).2.1
+      ((pNext s f).2.2 :: r.1, r.2)
+    else ([], s)
+
+theorem loop_eq : ∀ (k : Nat) (s : PState) (f : List Bool) (acc : Array String),
+    (runPart.loop k s f acc).toList = acc.toList ++ (pTrace k s f).1.map renderStep ++
+      (if (pTrace k s f).2.nd < (pTrace k s f).2.numWG then ["stuck"] else []) := by
+  intro k
+  induction k with
+  | zero =>
+    intro s f acc
+    unfold runPart.loop pTrace
+    by_cases h : s.nd < s.numWG <;> simp [h]
+  | succ k ih =>
+    intro s f acc
+    unfold runPart.loop pTrace
+    by_cases h : s.nd < s.numWG
+    · simp only [h, if_true]
+      generalize pNext s f = r
+      obtain ⟨s1, f1, o⟩ := r
+      cases o with
+      | none => simp only [ih]; simp [renderStep]
+      | some d =>
+        obtain ⟨i, wg⟩ := d
+        simp only [ih]; simp [renderStep]
+    · simp [h]
+
+theorem pRun_done : ∀ (k : Nat) (s : PState) (f : List Bool), ¬ s.nd < s.numWG → pRun k s f = (s, f, []) := by
+  intro k
+  induction k with
+  | zero => intro s f _; rfl
+  | succ k ih =>
+    intro s f h
+    have : pNext s f = (s, f, none) := by unfold pNext; rw [if_pos (by omega)]
+    unfold pRun
+    rw [this]
+    exact ih s f h
+
+theorem pTrace_pRun : ∀ (k : Nat) (s : PState) (f : List Bool),
+    (pTrace k s f).1.filterMap id = (pRun k s f).2.2 ∧ (pTrace k s f).2 = (pRun k s f).1 := by
+  intro k
+  induction k with
+  | zero => intro s f; exact ⟨rfl, rfl⟩
+  | succ k ih =>
+    intro s f
+    by_cases h : s.nd < s.numWG
+    · unfold pTrace pRun
+      simp only [h, if_true]
+      generalize pNext s f = r
+      obtain ⟨s1, f1, o⟩ := r
+      obtain ⟨a, b⟩ := ih s1 f1
+      cases o with
+      | none => simp only [List.filterMap_cons, id]; exact ⟨a, b⟩
+      | some d => simp only [List.filterMap_cons, id]; exact ⟨by rw [a], b⟩
+    · rw [pRun_done (k + 1) s f h]
+      unfold pTrace
+      simp [h]
 end C08
